@@ -1,4 +1,5 @@
 import GixModel.Lemmas.C04f
+import GixModel.Lemmas.C04abs
 /-
 C04 helper lemmas, part g: `write` as a whole; uniqueness of the canonical tree of a file system.
 -/
@@ -16,102 +17,326 @@ theorem aget_root_only (t : List Entry) (K : Path) (hK : K ≠ []) :
     aget K ([([], t)] : Assoc Path (List Entry)) = none := by
   simp [aget, Ne.symm hK]
 
+/-- all directory entries of `t` (living at `pb`) can be resolved -/
+def ClosedAt (ed : Ed) (pb : Path) (t : List Entry) : Prop :=
+  ∀ e ∈ t, e.isTree = true → (resolve ed (pb ++ [e.name]) e.oid).isSome = true
+
+/-- a lookup is not affected by a growing store when the cache entries on its way are unchanged -/
+theorem lookupIn_mono {ed ed' : Ed} (hinv : Inv ed) (hm : StoreMono ed.store ed'.store) (q : Path) :
+    ∀ (t : List Entry) (pb : Path), ClosedAt ed pb t →
+      (∀ K, pb <+: K → K ≠ pb → K <+: pb ++ q → aget K ed'.trees = aget K ed.trees) →
+      lookupIn ed' t pb q = lookupIn ed t pb q := by
+  induction q with
+  | nil => intro t pb _ _; rfl
+  | cons n rest ih =>
+    intro t pb hcl hc
+    cases rest with
+    | nil => rfl
+    | cons m rest' =>
+      simp only [lookupIn]
+      cases hf : findName t n with
+      | none => rfl
+      | some e =>
+        simp only
+        by_cases hd : e.isTree = true
+        · simp only [hd, if_true]
+          have hmem : e ∈ t := List.mem_of_find?_eq_some hf
+          have hen : e.name = n := by simpa using List.find?_some hf
+          have hres := hcl e hmem hd
+          rw [hen] at hres
+          have hk : aget (pb ++ [n]) ed'.trees = aget (pb ++ [n]) ed.trees :=
+            hc _ (List.prefix_append _ _) (ne_append_singleton pb n).symm
+              ⟨m :: rest', by simp [List.append_assoc]⟩
+          have hrec : ∀ K, (pb ++ [n]) <+: K → K ≠ pb ++ [n] → K <+: (pb ++ [n]) ++ (m :: rest') →
+              aget K ed'.trees = aget K ed.trees := by
+            intro K hK hne hle
+            refine hc K ((List.prefix_append pb [n]).trans hK) ?_ (by simpa [List.append_assoc] using hle)
+            intro h; subst h
+            exact not_prefix_append_singleton _ _ hK
+          unfold resolve at hres ⊢
+          rw [hk]
+          cases hcache : aget (pb ++ [n]) ed.trees with
+          | some t' =>
+            simp only
+            exact ih t' _ (fun x hx hxd => hinv.closed _ _ hcache x hx hxd) hrec
+          | none =>
+            simp only [hcache] at hres ⊢
+            by_cases hE : e.oid == emptyTreeId
+            · simp only [hE, if_true]; rw [lookupIn_nil, lookupIn_nil]
+            · simp only [hE, Bool.false_eq_true, if_false] at hres ⊢
+              cases hs : aget e.oid ed.store with
+              | none => simp [hs] at hres
+              | some ts =>
+                rw [hm _ _ hs]
+                simp only
+                exact ih ts _ (fun x hx hxd => storeOk_resolve hinv.store hs hx hxd _) hrec
+        · simp [hd]
+
+/-- outside of `P` nothing changes when only cache entries at or below `P` change and the store grows -/
+theorem abs_frame_mono {ed ed' : Ed} (hinv : Inv ed) (hm : StoreMono ed.store ed'.store) {P : Path}
+    (hP : P ≠ []) (hframe : ∀ K, ¬ P <+: K → aget K ed'.trees = aget K ed.trees) {q : Path}
+    (hq : ¬ P <+: q) : abs ed' q = abs ed q := by
+  have hroot : aget [] ed'.trees = aget [] ed.trees := by
+    apply hframe
+    intro h; exact hP (List.prefix_nil.1 h)
+  simp only [abs, hroot]
+  cases hr : aget [] ed.trees with
+  | none => rfl
+  | some root =>
+    simp only
+    apply lookupIn_mono hinv hm q root [] (fun e he hd => hinv.closed [] root hr e he hd)
+    intro K _ _ hK
+    apply hframe
+    intro h
+    exact hq (h.trans (by simpa using hK))
+
+/-- pointwise description of the cache `write_at_pathbuf` leaves behind -/
+def CacheAfter (ed : Ed) (P : Path) (t : List Entry) (trees' : Assoc Path (List Entry)) : Prop :=
+  ∀ K, aget K trees' = if K = P then some t else if P <+: K then none else aget K ed.trees
+
+/-- the invariant after the tree at `P` was written: `P` holds the written tree `t`, nothing is
+cached below it any more, everything else is as before; the store grew -/
+theorem inv_after_write {ed : Ed} (hinv : Inv ed) {P : Path} {t0 : List Entry}
+    (hP : aget P ed.trees = some t0) {t : List Entry} (ht : TreeOk t)
+    {store' : Assoc Bytes (List Entry)} (hm : StoreMono ed.store store') (hok' : StoreOk store')
+    (hcl : Closed store' t) {trees' : Assoc Path (List Entry)} (hc : CacheAfter ed P t trees')
+    (pb : Path) : Inv { pathBuf := pb, trees := trees', store := store' } := by
+  have hgetP : aget P trees' = some t := by rw [hc]; simp
+  have hmono : ∀ K oid, aget K trees' = aget K ed.trees → (resolve ed K oid).isSome = true →
+      (resolve { pathBuf := pb, trees := trees', store := store' } K oid).isSome = true := by
+    intro K oid hK h
+    unfold resolve at h ⊢
+    simp only [hK]
+    cases hk : aget K ed.trees with
+    | some _ => simp
+    | none =>
+      simp only [hk] at h
+      by_cases hE : oid == emptyTreeId
+      · simp [hE]
+      · simp only [hE, Bool.false_eq_true, if_false] at h ⊢
+        cases hs : aget oid ed.store with
+        | none => simp [hs] at h
+        | some ts => simp [hm _ _ hs]
+  refine ⟨?_, ?_, ?_, ?_, hok'⟩
+  · show (aget [] trees').isSome = true
+    rw [hc]
+    by_cases h0 : ([] : Path) = P
+    · simp [h0]
+    · have : ¬ P <+: [] := fun h => h0 (List.prefix_nil.1 h).symm
+      simp only [h0, if_false, this]; exact hinv.root
+  · intro K tk hK
+    change aget K trees' = some tk at hK
+    rw [hc] at hK
+    by_cases h1 : K = P
+    · simp only [h1, if_true, Option.some.injEq] at hK; subst hK; exact ht
+    · by_cases h2 : P <+: K
+      · simp [h1, h2] at hK
+      · simp only [h1, h2, if_false] at hK; exact hinv.trees K tk hK
+  · intro K n tk hK
+    change aget (K ++ [n]) trees' = some tk at hK
+    rw [hc] at hK
+    have hparent : ∀ tp, aget K ed.trees = some tp → ¬ P <+: K → aget K trees' = some tp := by
+      intro tp h hn
+      rw [hc]
+      have : K ≠ P := fun e => hn (e ▸ List.prefix_refl _)
+      simp only [this, if_false, hn]; exact h
+    by_cases h1 : K ++ [n] = P
+    · obtain ⟨tp, e, h3, h4, h5⟩ := hinv.linked K n t0 (h1 ▸ hP)
+      have hn : ¬ P <+: K := by
+        rw [← h1]; exact not_prefix_append_singleton K n
+      exact ⟨tp, e, hparent tp h3 hn, h4, h5⟩
+    · by_cases h2 : P <+: (K ++ [n])
+      · simp [h1, h2] at hK
+      · simp only [h1, h2, if_false] at hK
+        obtain ⟨tp, e, h3, h4, h5⟩ := hinv.linked K n tk hK
+        have hn : ¬ P <+: K := fun h => h2 (h.trans (List.prefix_append K [n]))
+        exact ⟨tp, e, hparent tp h3 hn, h4, h5⟩
+  · intro K tk hK e he hd
+    change aget K trees' = some tk at hK
+    rw [hc] at hK
+    by_cases h1 : K = P
+    · subst h1
+      simp only [if_true, Option.some.injEq] at hK
+      subst hK
+      have := hcl e he hd
+      unfold resolve
+      cases aget (K ++ [e.name]) trees' with
+      | some _ => simp
+      | none =>
+        by_cases hE : e.oid == emptyTreeId
+        · simp [hE]
+        · simpa [hE] using this
+    · by_cases h2 : P <+: K
+      · simp [h1, h2] at hK
+      · simp only [h1, h2, if_false] at hK
+        have hold := hinv.closed K tk hK e he hd
+        by_cases h3 : K ++ [e.name] = P
+        · apply resolve_isSome_of_cached (t := t)
+          show aget (K ++ [e.name]) trees' = some t
+          rw [h3]; exact hgetP
+        · have h4 : ¬ P <+: (K ++ [e.name]) := by
+            intro h
+            obtain ⟨S, hS⟩ := h
+            -- `P` is not a prefix of `K` and differs from `K ++ [x]`: it cannot be a prefix of `K ++ [x]`
+            have hlen : P.length ≤ K.length := by
+              by_cases hl : P.length ≤ K.length
+              · exact hl
+              · exfalso
+                have hS0 : S = [] := by
+                  have := congrArg List.length hS
+                  simp at this
+                  apply List.length_eq_zero_iff.1; omega
+                subst hS0
+                simp at hS
+                exact h3 hS.symm
+            exact h2 (List.prefix_of_prefix_length_le ⟨S, hS⟩ (List.prefix_append K [e.name]) hlen)
+          apply hmono _ _ ?_ hold
+          rw [hc]; simp only [h3, if_false, h4]
+
+/-- `write_at_pathbuf` (both modes) for the tree cached at `P` -/
+theorem writeAt_spec {hash : List Entry → Bytes} (hh : HashOk hash) {ed : Ed} (h : InvW hash ed)
+    {P : Path} (hpb : ed.pathBuf = P) {root0 : List Entry} (hP : aget P ed.trees = some root0)
+    (fromCursor : Bool) (hmode : fromCursor = false → P = []) :
+    ∃ calls ed' root, writeAt hash ed fromCursor = .ok (hash root) calls ed' ∧ InvW hash ed' ∧
+      aget (hash root) ed'.store = some root ∧ Canon ed'.store root ∧
+      (∀ q, absStore ed'.store root q = lookupIn ed root0 P q) ∧ (∀ q, abs ed' q = abs ed q) ∧
+      StoreMono ed.store ed'.store ∧ aget P ed'.trees = some root := by
+  have hinv := h.inv
+  have hsnap : Snap hash ed.trees ed.store := by
+    refine ⟨hinv.trees, ?_, ?_, hinv.linked, hinv.store, h.hashed, h.canon⟩
+    · intro K t hK e he hd
+      exact hinv.closed K t hK e he hd
+    · intro K hnone K' hpre
+      cases hc : aget K' ed.trees with
+      | none => rfl
+      | some t' =>
+        obtain ⟨S, rfl⟩ := hpre
+        have := cached_prefix hinv S.length S K t' rfl hc
+        simp [hnone] at this
+  have hpre : WPre hash ed.trees ed.store ⟨aerase P ed.trees, ed.store, 0⟩ P root0 := by
+    refine ⟨?_, StoreMono.refl _, hinv.store, h.hashed, h.canon, hinv.trees _ _ hP, ?_, hP⟩
+    · intro K _ hne
+      exact aget_aerase_ne _ hne
+    · intro e he hd
+      exact hinv.closed P root0 hP e he hd
+  have hpost := writeTree_spec hh hsnap ((aerase P ed.trees).length + 1) _ _ _ hpre (Nat.lt_succ_self _)
+  generalize hr : writeTree hash ((aerase P ed.trees).length + 1) ⟨aerase P ed.trees, ed.store, 0⟩ P root0 = r at hpost
+  have hm1 := storeMono_aset hh hpost.hashed r.2
+  have hok' := storeOk_aset hh hpost.hashed hpost.storeOk hpost.tree hpost.closed
+  have hmono' : StoreMono ed.store (aset (hash r.2) r.2 r.1.store) := hpost.mono.trans hm1
+  -- the cache afterwards, pointwise, in both modes
+  have hcache : CacheAfter ed P r.2 (if fromCursor then aset P r.2 r.1.cache else [(P, r.2)]) := by
+    intro K
+    by_cases hK : K = P
+    · subst hK
+      cases fromCursor <;> simp [aget, aget_aset_self]
+    · have hKP : aget K (aset P r.2 r.1.cache) =
+          if P <+: K then none else aget K ed.trees := by
+        rw [aget_aset_ne _ _ hK]
+        by_cases hu : P <+: K
+        · simp only [hu, if_true]; exact hpost.erased K hu hK
+        · simp only [hu, if_false]
+          rw [hpost.frame K (fun h => hu h.1)]
+          exact aget_aerase_ne _ hK
+      cases hfc : fromCursor with
+      | true => simp only [if_true, hK, if_false]; exact hKP
+      | false =>
+        have hP0 := hmode hfc
+        subst hP0
+        simp only [Bool.false_eq_true, if_false, hK, List.nil_prefix, if_true]
+        simp [aget, Ne.symm hK]
+  -- the resulting editor state
+  obtain ⟨ed', hed'⟩ : ∃ ed' : Ed, ed' = Ed.mk (if fromCursor then aset P r.2 r.1.cache else [(P, r.2)])
+      (aset (hash r.2) r.2 r.1.store) ed.pathBuf := ⟨_, rfl⟩
+  have htrees' : ed'.trees = (if fromCursor then aset P r.2 r.1.cache else [(P, r.2)]) := by rw [hed']
+  have hstore' : ed'.store = aset (hash r.2) r.2 r.1.store := by rw [hed']
+  have hcache' : CacheAfter ed P r.2 ed'.trees := by rw [htrees']; exact hcache
+  have hw : writeAt hash ed fromCursor = .ok (hash r.2) (r.1.calls + 1) ed' := by
+    rw [hed']
+    subst hpb
+    cases fromCursor <;> simp [writeAt, hP, hr]
+  have hinv' : Inv ed' := by
+    rw [hed']
+    exact inv_after_write hinv hP hpost.tree hmono' hok' (hpost.closed.mono hm1) hcache ed.pathBuf
+  have hgetP' : aget P ed'.trees = some r.2 := by rw [hcache']; simp
+  have hsemP : ∀ q, lookupIn ed' r.2 P q = lookupIn ed root0 P q := by
+    intro q
+    have e1 : lookupIn ed' r.2 P q = lookupIn (storeEd (aset (hash r.2) r.2 r.1.store)) r.2 P q := by
+      apply lookupIn_congr (ed := storeEd (aset (hash r.2) r.2 r.1.store)) (ed' := ed') hstore'
+      intro K hK hne
+      rw [hcache']
+      simp [hne, hK, storeEd, aget]
+    rw [e1, lookup_store_mono hpost.storeOk hm1 q r.2 P hpost.closed, hpost.sem q]
+    exact lookupIn_congr (ed := ed) (ed' := ⟨ed.trees, ed.store, []⟩) rfl q root0 P (fun _ _ _ => rfl)
+  refine ⟨r.1.calls + 1, ed', r.2, hw, ⟨hinv', ?_, ?_⟩, ?_, ?_, ?_, ?_, ?_, hgetP'⟩
+  · rw [hstore']; exact hashed_aset hpost.hashed r.2
+  · rw [hstore']; exact storeCanon_aset hh hpost.hashed hpost.allCanon hpost.canon
+  · rw [hstore']; exact aget_aset_self _ _ _
+  · rw [hstore']; exact hpost.canon.mono hm1
+  · intro q
+    rw [hstore']
+    show lookupIn (storeEd (aset (hash r.2) r.2 r.1.store)) r.2 [] q = lookupIn ed root0 P q
+    rw [lookup_store_path _ q r.2 [] P, lookup_store_mono hpost.storeOk hm1 q r.2 P hpost.closed, hpost.sem q]
+    exact lookupIn_congr (ed := ed) (ed' := ⟨ed.trees, ed.store, []⟩) rfl q root0 P (fun _ _ _ => rfl)
+  · intro q
+    by_cases hPq : P <+: q
+    · obtain ⟨r', rfl⟩ := hPq
+      by_cases hr' : r' = []
+      · subst hr'
+        simp only [List.append_nil]
+        rw [abs_dir_none hinv' hgetP' P (List.prefix_refl _), abs_dir_none hinv hP P (List.prefix_refl _)]
+      · rw [abs_under hinv' hgetP' hr', abs_under hinv hP hr']
+        exact hsemP r'
+    · have hP0 : P ≠ [] := fun e => hPq (e ▸ List.nil_prefix)
+      -- outside of `P` the cache is as before; the store only grew, which lookups from the root
+      -- through unchanged cached trees do not notice
+      apply abs_frame_mono hinv (by rw [hstore']; exact hmono') hP0 ?_ hPq
+      intro K hK
+      rw [hcache']
+      have : K ≠ P := fun e => hK (e ▸ List.prefix_refl _)
+      simp [this, hK]
+  · rw [hstore']; exact hmono'
+
 /-- `Editor::write()` -/
 theorem write_spec {hash : List Entry → Bytes} (hh : HashOk hash) {ed : Ed} (h : InvW hash ed) :
     ∃ calls ed' root, write hash ed = .ok (hash root) calls ed' ∧ InvW hash ed' ∧
       aget (hash root) ed'.store = some root ∧ Canon ed'.store root ∧
       (∀ q, absStore ed'.store root q = abs ed q) ∧ (∀ q, abs ed' q = abs ed q) ∧
       StoreMono ed.store ed'.store := by
-  have hinv := h.inv
   cases hroot : aget [] ed.trees with
-  | none => have := hinv.root; simp [hroot] at this
+  | none => have := h.inv.root; simp [hroot] at this
   | some root0 =>
-    -- the snapshot: the cache without the root, the store as it is
-    have hcache : ∀ K, K ≠ [] → aget K (aerase [] ed.trees) = aget K ed.trees :=
-      fun K hK => aget_aerase_ne _ hK
-    have hres : ∀ K oid, K ≠ [] →
-        resolve ⟨aerase [] ed.trees, ed.store, []⟩ K oid = resolve ed K oid := by
-      intro K oid hK
-      simp only [resolve, hcache K hK]
-    have hsnap : Snap hash (aerase [] ed.trees) ed.store := by
-      refine ⟨?_, ?_, ?_, hinv.store, h.hashed, h.canon⟩
-      · intro K t hK
-        by_cases h0 : K = []
-        · subst h0; rw [aget_aerase_self] at hK; cases hK
-        · rw [hcache K h0] at hK; exact hinv.trees K t hK
-      · intro K t hK e he hd
-        by_cases h0 : K = []
-        · subst h0; rw [aget_aerase_self] at hK; cases hK
-        · rw [hcache K h0] at hK
-          rw [hres _ _ (by simp)]
-          exact hinv.closed K t hK e he hd
-      · intro K hK hnone K' hpre
-        have hK' : K' ≠ [] := by
-          intro h0; subst h0
-          exact hK (List.prefix_nil.1 hpre)
-        rw [hcache K hK] at hnone
-        rw [hcache K' hK']
-        cases hc : aget K' ed.trees with
-        | none => rfl
-        | some t' =>
-          obtain ⟨S, rfl⟩ := hpre
-          have := cached_prefix hinv S.length S K t' rfl hc
-          simp [hnone] at this
-    have hpre : WPre hash (aerase [] ed.trees) ed.store ⟨aerase [] ed.trees, ed.store, 0⟩ [] root0 := by
-      refine ⟨fun _ _ _ => rfl, StoreMono.refl _, hinv.store, h.hashed, h.canon, hinv.trees _ _ hroot, ?_⟩
-      intro e he hd
-      rw [hres _ _ (by simp)]
-      exact hinv.closed [] root0 hroot e he hd
-    have hpost := writeTree_spec hh hsnap ((aerase [] ed.trees).length + 1) _ _ _ hpre
-      (Nat.lt_succ_self _)
-    generalize hr : writeTree hash ((aerase [] ed.trees).length + 1) ⟨aerase [] ed.trees, ed.store, 0⟩ [] root0 = r at hpost
-    have hm1 := storeMono_aset hh hpost.hashed r.2
-    have hw : write hash ed = .ok (hash r.2) (r.1.calls + 1)
-        { ed with pathBuf := [], trees := [([], r.2)], store := aset (hash r.2) r.2 r.1.store } := by
-      simp [write, writeAt, hroot, hr]
-    have hok' := storeOk_aset hh hpost.hashed hpost.storeOk hpost.tree hpost.closed
-    have hinv' : Inv { ed with pathBuf := [], trees := [([], r.2)], store := aset (hash r.2) r.2 r.1.store } := by
-      refine ⟨by simp [aget], ?_, ?_, ?_, hok'⟩
-      · intro K t hK
-        by_cases h0 : K = []
-        · subst h0
-          simp only [aget, if_true, Option.some.injEq] at hK
-          subst hK; exact hpost.tree
-        · rw [aget_root_only _ _ h0] at hK; cases hK
-      · intro K n t hK
-        rw [aget_root_only _ _ (by simp)] at hK; cases hK
-      · intro K t hK e he hd
-        by_cases h0 : K = []
-        · subst h0
-          simp only [aget, if_true, Option.some.injEq] at hK
-          subst hK
-          have := (hpost.closed.mono hm1) e he hd
-          simp only [resolve]
-          rw [aget_root_only _ _ (by simp)]
-          by_cases hE : e.oid == emptyTreeId
-          · simp [hE]
-          · simpa [hE] using this
-        · rw [aget_root_only _ _ h0] at hK; cases hK
-    have hcanon' : StoreCanon (aset (hash r.2) r.2 r.1.store) :=
-      storeCanon_aset hh hpost.hashed hpost.allCanon hpost.canon
-    have hsem : ∀ q, lookupIn (storeEd (aset (hash r.2) r.2 r.1.store)) r.2 [] q = abs ed q := by
-      intro q
-      rw [lookup_store_mono hpost.storeOk hm1 q r.2 [] hpost.closed, hpost.sem q]
+    have h' : InvW hash { ed with pathBuf := [] } := ⟨inv_pathBuf h.inv [], h.hashed, h.canon⟩
+    obtain ⟨calls, ed', root, h1, h2, h3, h4, h5, h6, h7, _⟩ :=
+      writeAt_spec hh h' (P := []) rfl (root0 := root0) hroot false (fun _ => rfl)
+    refine ⟨calls, ed', root, h1, h2, h3, h4, ?_, ?_, h7⟩
+    · intro q
+      rw [h5 q]
       simp only [abs, hroot]
-      apply lookupIn_congr (ed := ed) (ed' := ⟨aerase [] ed.trees, ed.store, []⟩) rfl
-      intro K _ hK
-      exact hcache K hK
-    refine ⟨r.1.calls + 1, _, r.2, hw, ⟨hinv', hashed_aset hpost.hashed r.2, hcanon'⟩,
-      aget_aset_self _ _ _, hpost.canon.mono hm1, hsem, ?_, hpost.mono.trans hm1⟩
-    intro q
-    rw [← hsem q]
-    simp only [abs, aget, if_true]
-    apply lookupIn_congr
-      (ed := storeEd (aset (hash r.2) r.2 r.1.store))
-      (ed' := { ed with pathBuf := [], trees := [([], r.2)], store := aset (hash r.2) r.2 r.1.store }) rfl
-    intro K _ hK
-    rw [aget_root_only _ _ hK]
-    simp [storeEd, aget]
+      exact lookupIn_congr (ed := ed) (ed' := { ed with pathBuf := [] }) rfl q root0 [] (fun _ _ _ => rfl)
+    · intro q
+      rw [h6 q]
+      exact congrFun (abs_pathBuf ed []) q
+
+/-- `Cursor::write()` for a cursor whose tree is cached at `pfx`: the returned id is that of a
+canonical tree reading as what the editor holds below `pfx`; the editor stands for the same file
+system as before -/
+theorem cursorWrite_spec {hash : List Entry → Bytes} (hh : HashOk hash) {ed : Ed} (h : InvW hash ed)
+    {pfx : Path} {t : List Entry} (hP : aget pfx ed.trees = some t) :
+    ∃ calls ed' root, cursorWrite hash ed pfx = .ok (hash root) calls ed' ∧ InvW hash ed' ∧
+      aget (hash root) ed'.store = some root ∧ Canon ed'.store root ∧
+      (∀ q, q ≠ [] → absStore ed'.store root q = abs ed (pfx ++ q)) ∧ abs ed' = abs ed ∧
+      StoreMono ed.store ed'.store ∧ (aget pfx ed'.trees).isSome = true := by
+  have h' : InvW hash { ed with pathBuf := pfx } := ⟨inv_pathBuf h.inv pfx, h.hashed, h.canon⟩
+  obtain ⟨calls, ed', root, h1, h2, h3, h4, h5, h6, h7, h8⟩ :=
+    writeAt_spec hh h' (P := pfx) rfl (root0 := t) hP true (fun e => by cases e)
+  refine ⟨calls, ed', root, h1, h2, h3, h4, ?_, ?_, h7, by simp [h8]⟩
+  · intro q hq
+    rw [h5 q, abs_under h.inv hP hq]
+    exact lookupIn_congr (ed := ed) (ed' := { ed with pathBuf := pfx }) rfl q t pfx (fun _ _ _ => rfl)
+  · funext q
+    rw [h6 q]
+    exact congrFun (abs_pathBuf ed pfx) q
 
 /-! ### one file system, one canonical tree -/
 
